@@ -87,6 +87,8 @@ def _match_name_to_entry(name, entry):
 
 
 def _validate_name(name, settings, exception_cls=AttributeError):
+    if not isinstance(name, str):
+        raise exception_cls('Cannot access {!r}'.format(type(name)))
     if name.startswith('_'):
         raise exception_cls('Cannot access ' + name)
     whitelist = settings['whitelist']
